@@ -729,7 +729,8 @@ func (m *cacheModel) opMatchSelf(step int, st scn.Step) string {
 // histC16 runs a sequential key history.
 func (x *exec) histC16() {
 	keysSeen := map[string]bool{}
-	for i, st := range x.s.Steps {
+	for _, xs := range scn.Expand(x.s.Steps) {
+		i, st := xs.I, xs.St
 		if x.stop {
 			return
 		}
